@@ -810,13 +810,13 @@ func ruleC11AtomicCheckThenAct(c *Ctx) {
 	}
 	// frozen exceptions: calls that legitimately run before the lock is taken (one line of reason each)
 	exceptions := map[string]string{
-		"(*STFS).Create|Stat":                       "pre-check only; OpenFile's create closure repeats the parent lookup under the lock",
-		"(*STFS).Create|(*STFS).OpenFile":           "OpenFile takes the lock itself",
-		"(*STFS).Open|(*STFS).OpenFile":             "OpenFile takes the lock itself",
+		"(*STFS).Create|Stat":                                "pre-check only; OpenFile's create closure repeats the parent lookup under the lock",
+		"(*STFS).Create|(*STFS).OpenFile":                    "OpenFile takes the lock itself",
+		"(*STFS).Open|(*STFS).OpenFile":                      "OpenFile takes the lock itself",
 		"(*STFS).SymlinkIfPossible|(*STFS).resolveCleanName": "reads the init-once root cache only",
-		"(*File).ReadAt|(*File).Seek":               "Seek takes the lock itself",
-		"(*File).ReadAt|(*File).Read":               "Read takes the lock itself",
-		"(*File).Readdirnames|(*File).Readdir":      "Readdir takes the lock itself",
+		"(*File).ReadAt|(*File).Seek":                        "Seek takes the lock itself",
+		"(*File).ReadAt|(*File).Read":                        "Read takes the lock itself",
+		"(*File).Readdirnames|(*File).Readdir":               "Readdir takes the lock itself",
 	}
 	// touches(f): f (transitively, inside pkg/fs) calls into the index store, inventory or the operations
 	touch := map[*FuncInfo]int{}
@@ -1537,11 +1537,10 @@ func ruleC10ErrorsNotDropped(c *Ctx) {
 	c.floor(rule, 8, "discarded error results in pkg/operations, pkg/recovery, pkg/persisters, pkg/tape, pkg/fs, pkg/inventory, internal/tarext (each must be in the exemption table)")
 	// frozen exceptions (callee name -> reason)
 	exempt := map[string]string{
-		"CloseReader":          "deferred best-effort release after the operation's own error has been decided",
-		"CloseWriter":          "deferred best-effort release inside the writer guard",
-		"closeWithoutLocking":  "seek re-open: the previous stream may legitimately be closed already",
-		"CloseWithError":       "reports the error to the pipe's reader; its own result is always nil",
-		"Debug": "logging", "Trace": "logging", "Info": "logging", "Error": "logging",
+		"CloseReader":         "deferred best-effort release after the operation's own error has been decided",
+		"CloseWriter":         "deferred best-effort release inside the writer guard",
+		"closeWithoutLocking": "seek re-open: the previous stream may legitimately be closed already",
+		"Debug":               "logging", "Trace": "logging", "Info": "logging", "Error": "logging",
 	}
 	scope := map[string]bool{"pkg/operations": true, "pkg/recovery": true, "pkg/persisters": true, "pkg/tape": true, "pkg/fs": true, "pkg/inventory": true, "internal/tarext": true}
 	errT := types.Universe.Lookup("error").Type()
@@ -1604,6 +1603,10 @@ func ruleC10ErrorsNotDropped(c *Ctx) {
 				name = cs.Callee.Name()
 			}
 			construct := fmt.Sprintf("dropped %s#%d", name, k)
+			if isMethod(cs.Callee, "io", "PipeWriter", "Close") || isMethod(cs.Callee, "io", "PipeWriter", "CloseWithError") {
+				c.ok(rule, f, construct, cs.Call.Pos(), false, "exempt (%s): closing a pipe writer always returns nil", how)
+				continue
+			}
 			if why, ok := exempt[name]; ok {
 				c.ok(rule, f, construct, cs.Call.Pos(), false, "exempt (%s): %s", how, why)
 				continue
@@ -1625,7 +1628,7 @@ func ruleC11NoNewGoroutines(c *Ctx) {
 	const rule = "C11.goroutine-sites"
 	c.floor(rule, 1, "go statements in library packages")
 	allowed := map[string]string{
-		"pkg/fs":       "streaming restore behind File.Read / File.Seek (modelled by the pipe wait-for edge)",
+		"pkg/fs":           "streaming restore behind File.Read / File.Seek (modelled by the pipe wait-for edge)",
 		"internal/ftp":     "FTP server plumbing outside the filesystem",
 		"internal/logging": "log line pump, touches no filesystem state",
 	}
@@ -1980,5 +1983,289 @@ func ruleFetchErrorPropagated(rule string) func(*Ctx) {
 		if n == 0 {
 			c.unresolved("no recovery.Fetch call in pkg/operations")
 		}
+	}
+}
+
+// ================= generic discipline rules =================
+
+func init() {
+	extend("C02", ruleArgumentSelection("C02.argument-selection"))
+	extend("C04", ruleArgumentSelection("C04.argument-selection"))
+	extend("C10", ruleC10ErrorToSuccess)
+}
+
+// ruleArgumentSelection: at a call of a repository function, two parameters of identical type must not receive
+// arguments whose own names are each other's parameter names (f(block, record) for f(record, block)).
+func ruleArgumentSelection(rule string) func(*Ctx) {
+	return func(c *Ctx) {
+		c.floor(rule, 50, "call sites of repository functions with two or more same-typed parameters")
+		n := 0
+		norm := func(s string) string { return strings.ToLower(strings.TrimLeft(s, "_")) }
+		argName := func(info *types.Info, e ast.Expr) string {
+			e = stripConv(info, e)
+			switch x := e.(type) {
+			case *ast.Ident:
+				return norm(x.Name)
+			case *ast.SelectorExpr:
+				return norm(x.Sel.Name)
+			}
+			return ""
+		}
+		for _, f := range c.Funcs {
+			if strings.HasPrefix(f.RelPkg(), "internal/db/") {
+				continue
+			}
+			info := f.Pkg.TypesInfo
+			k := 0
+			for _, cs := range f.calls {
+				fn, ok := cs.Callee.(*types.Func)
+				if !ok || !inRepo(fn) || strings.HasPrefix(funcPkgPath(fn), modelsPath) {
+					continue
+				}
+				sig := fn.Type().(*types.Signature)
+				if sig.Variadic() || sig.Params().Len() < 2 || len(cs.Call.Args) != sig.Params().Len() {
+					continue
+				}
+				counted := false
+				swapped := ""
+				for i := 0; i < sig.Params().Len(); i++ {
+					for j := i + 1; j < sig.Params().Len(); j++ {
+						pi, pj := sig.Params().At(i), sig.Params().At(j)
+						if !types.Identical(pi.Type(), pj.Type()) || pi.Name() == "" || pj.Name() == "" || pi.Name() == "_" {
+							continue
+						}
+						counted = true
+						ai, aj := argName(info, cs.Call.Args[i]), argName(info, cs.Call.Args[j])
+						if ai == "" || aj == "" || ai == aj {
+							continue
+						}
+						if ai == norm(pj.Name()) && aj == norm(pi.Name()) {
+							swapped = fmt.Sprintf("argument %q is passed for parameter %q and %q for %q", exprString(cs.Call.Args[i]), pi.Name(), exprString(cs.Call.Args[j]), pj.Name())
+						}
+					}
+				}
+				if !counted {
+					continue
+				}
+				n++
+				k++
+				c.verdictIf(swapped == "", rule, f, fmt.Sprintf("%s#%d", fn.Name(), k), cs.Call.Pos(), "same-typed arguments are in parameter order",
+					swapped+": two same-typed arguments appear to be swapped")
+			}
+		}
+		if n < half(50) {
+			c.unresolved("only %d candidate call sites for the argument-selection rule", n)
+		}
+	}
+}
+
+// ruleC10ErrorToSuccess: a branch taken because an error occurred never turns it into success: it does not end in a
+// return with a nil error, nor skip to the next iteration, outside a frozen table of deliberate tolerances.
+func ruleC10ErrorToSuccess(c *Ctx) {
+	const rule = "C10.error-to-success"
+	c.floor(rule, 4, "`if err != nil` branches in the drive/index path that end in `return nil`, `continue` or `break`")
+	// deliberate tolerances (function -> reason); each is a design decision visible in the code's comments
+	tolerated := map[string]string{
+		"Index":                                             "resynchronisation after a header-parse error / end of data (skips padding and file marks)",
+		"Query":                                             "resynchronisation after a header-parse error / end of data",
+		"(*STFS).Initialize":                                "falls back to creating a root when no tape is readable (C16 known finding covers the rebuild-error case)",
+		"(*STFS).OpenFile":                                  "lookup chain name -> link name -> create",
+		"(*STFS).MkdirAll":                                  "missing prefix is created",
+		"(*STFS).Mkdir":                                     "existence probes",
+		"(*STFS).SymlinkIfPossible":                         "existence probes",
+		"(*STFS).Rename":                                    "existence probes",
+		"(*STFS).mknodeWithoutLocking":                      "non-numeric uid/gid on foreign platforms default to 0",
+		"(*Operations).Initialize":                          "non-numeric uid/gid on foreign platforms default to 0",
+		"(*File).enterWriteMode":                            "a missing entry means an empty buffer",
+		"(*File).seekWithoutLocking":                        "EOF while skipping forward is the end position",
+		"(*File).Read":                                      "EOF is returned with the bytes read",
+		"(*MetadataPersister).Open":                         "an index without a root is valid before the first archive",
+		"(*MetadataPersister).getSanitizedPath":             "probing for the empty-string root",
+		"(*MetadataPersister).GetRootPath":                  "NULL aggregate means no root yet",
+		"(*MetadataPersister).GetHeaderDirectChildren":      "no rows is an empty listing; a dangling link row is listed as is",
+		"(*MetadataPersister).GetLastIndexedRecordAndBlock": "an empty index starts at (0,0)",
+		"(*MetadataPersister).UpsertHeader":                 "no row means insert",
+		"indexHeader":                                       "metadata-only update of an already-moved entry",
+		"Stat":                                              "retry with a trailing slash",
+		"OpenTapeWriteOnly":                                 "a missing drive file will be created",
+	}
+	scope := map[string]bool{"pkg/operations": true, "pkg/recovery": true, "pkg/persisters": true, "pkg/tape": true, "pkg/fs": true, "pkg/inventory": true, "internal/tarext": true, "pkg/signature": true, "pkg/encryption": true}
+	errT := types.Universe.Lookup("error").Type()
+	n := 0
+	for _, f := range c.Funcs {
+		if !scope[f.RelPkg()] {
+			continue
+		}
+		info := f.Pkg.TypesInfo
+		root := f
+		for root.Outer != nil {
+			root = root.Outer
+		}
+		k := 0
+		walkOwn(f.Body(), func(nd ast.Node) {
+			is, ok := nd.(*ast.IfStmt)
+			if !ok {
+				return
+			}
+			be, ok := ast.Unparen(is.Cond).(*ast.BinaryExpr)
+			if !ok || be.Op != token.NEQ || !isNilIdent(info, be.Y) {
+				return
+			}
+			tv, ok := info.Types[be.X]
+			if !ok || !types.Identical(tv.Type, errT) {
+				return
+			}
+			n++
+			if len(is.Body.List) == 0 {
+				return
+			}
+			last := is.Body.List[len(is.Body.List)-1]
+			bad := ""
+			switch s := last.(type) {
+			case *ast.ReturnStmt:
+				if len(s.Results) > 0 && returnsNil(info, s) {
+					// only if the function's last result is an error at all
+					if sg, ok := info.TypeOf(f.Type()).(*types.Signature); ok && sg.Results().Len() > 0 && types.Identical(sg.Results().At(sg.Results().Len()-1).Type(), errT) {
+						bad = "returns a nil error"
+					}
+				}
+			case *ast.BranchStmt:
+				if s.Tok == token.CONTINUE || s.Tok == token.BREAK {
+					bad = "leaves with `" + s.Tok.String() + "`"
+				}
+			}
+			// (falling through after handling - retry with another lookup, set a flag - is ordinary Go and not judged)
+			if bad == "" {
+				return
+			}
+			k++
+			construct := fmt.Sprintf("err-branch#%d", k)
+			name := strings.Split(root.Name, "$")[0]
+			if why, ok := tolerated[name]; ok {
+				c.ok(rule, f, construct, is.Pos(), false, "tolerated by design (%s): %s", bad, why)
+				return
+			}
+			c.bad(rule, f, construct, is.Pos(), "the branch taken when %s failed %s: the failure is turned into success / silently skipped, so the caller continues on a half-done operation", exprString(be.X), bad)
+		})
+	}
+	if n < half(100) {
+		c.unresolved("only %d error branches found", n)
+	}
+}
+
+// alwaysReturnsError: every path through the block ends in a return with a non-nil error (nested if/else chains).
+func alwaysReturnsError(info *types.Info, b *ast.BlockStmt) bool {
+	if b == nil || len(b.List) == 0 {
+		return false
+	}
+	switch s := b.List[len(b.List)-1].(type) {
+	case *ast.ReturnStmt:
+		return !returnsNil(info, s)
+	case *ast.IfStmt:
+		if s.Else == nil {
+			return false
+		}
+		elseOK := false
+		switch e := s.Else.(type) {
+		case *ast.BlockStmt:
+			elseOK = alwaysReturnsError(info, e)
+		case *ast.IfStmt:
+			elseOK = alwaysReturnsError(info, &ast.BlockStmt{List: []ast.Stmt{e}})
+		}
+		return alwaysReturnsError(info, s.Body) && elseOK
+	}
+	return false
+}
+
+// ================= fourth round =================
+
+func init() {
+	extend("C14", ruleC14CursorPreserved, ruleC14FlushUnconditional)
+	extend("C18", ruleFailClosedAs("C18.verify-fail-closed"), ruleStateless("C18.stateless-keys", "pkg/keys", "pkg/signature", "pkg/encryption", "pkg/utility"))
+}
+
+// ruleC14CursorPreserved: the read cursor of a handle is the byte counter of its streaming reader, so File.Read may
+// replace or drop that reader only where it establishes there is none yet.
+func ruleC14CursorPreserved(c *Ctx) {
+	const rule = "C14.cursor-preserved"
+	c.floor(rule, 1, "reader replacements inside File.Read")
+	f := c.fn("pkg/fs", "(*File).Read")
+	rd := c.field("pkg/fs", "File", "readOpReader")
+	if f == nil || rd == nil {
+		return
+	}
+	info := f.Pkg.TypesInfo
+	replaces := c.storesFieldTransitively(rd)
+	n := 0
+	check := func(node ast.Node, what string) {
+		n++
+		guarded := false
+		for _, cl := range enclosingConds(f.Body(), node) {
+			// inside `if f.readOpReader == nil || ...` (positive branch)
+			mentionsNil := false
+			ast.Inspect(cl.e, func(m ast.Node) bool {
+				if be, ok := m.(*ast.BinaryExpr); ok && be.Op == token.EQL && selField(info, be.X) == rd && isNilIdent(info, be.Y) {
+					mentionsNil = true
+				}
+				return true
+			})
+			if mentionsNil && cl.pos {
+				guarded = true
+			}
+		}
+		c.verdictIf(guarded, rule, f, fmt.Sprintf("reader replacement#%d", n), node.Pos(), what+" only where no stream is open yet",
+			what+" while a stream may be open: the handle's position is that stream's byte counter, so dropping it (e.g. at EOF) resets the cursor to 0 and later reads/relative seeks continue from the start")
+	}
+	walkOwn(f.Body(), func(nd ast.Node) {
+		if as, ok := nd.(*ast.AssignStmt); ok {
+			for _, l := range as.Lhs {
+				if selField(info, l) == rd {
+					check(as, "the streaming reader is assigned")
+				}
+			}
+		}
+	})
+	for _, cs := range f.calls {
+		if cs.Target != nil && replaces[cs.Target] && cs.Target != f {
+			check(cs.Call, "call of "+cs.Target.Name+" (which replaces the streaming reader)")
+		}
+	}
+	if n == 0 {
+		c.unresolved("File.Read no longer opens the streaming reader")
+	}
+}
+
+// ruleC14FlushUnconditional: the flush of the write cache depends on nothing but the cache existing.
+func ruleC14FlushUnconditional(c *Ctx) {
+	const rule = "C14.flush-unconditional"
+	c.floor(rule, 1, "the Update call of syncWithoutLocking")
+	f := c.fn("pkg/fs", "(*File).syncWithoutLocking")
+	update := c.fn("pkg/operations", "(*Operations).Update")
+	wb := c.field("pkg/fs", "File", "writeBuf")
+	if f == nil || update == nil || wb == nil {
+		return
+	}
+	info := f.Pkg.TypesInfo
+	n := 0
+	for _, cs := range f.calls {
+		if cs.Target != update {
+			continue
+		}
+		n++
+		var extra []string
+		for _, cl := range enclosingConds(f.Body(), cs.Call) {
+			if containsNode(cl.e, cs.Call) {
+				continue
+			}
+			if be, ok := ast.Unparen(cl.e).(*ast.BinaryExpr); ok && be.Op == token.NEQ && selField(info, be.X) == wb && isNilIdent(info, be.Y) && cl.pos {
+				continue
+			}
+			extra = append(extra, exprString(cl.e))
+		}
+		c.verdictIf(len(extra) == 0, rule, f, fmt.Sprintf("Update#%d", n), cs.Call.Pos(), "whatever is in the write cache is written back whenever a cache exists",
+			"the write-back additionally depends on "+strings.Join(extra, ", ")+": modifications that do not establish that condition (e.g. a Truncate-only handle) are discarded on Close")
+	}
+	if n == 0 {
+		c.unresolved("syncWithoutLocking no longer calls Update")
 	}
 }
